@@ -37,6 +37,8 @@ pub enum Term {
     Struct(&'static str, Vec<(&'static str, Term)>),
     StructVariant(&'static str, &'static str, Vec<(&'static str, Term)>),
     Fail(String),
+    /// serializes as the first term for human-readable formats, as the second for compact ones
+    HumanReadable(Box<Term>, Box<Term>),
 }
 
 impl Serialize for Term {
@@ -115,6 +117,13 @@ impl Serialize for Term {
                 q.end()
             }
             Term::Fail(m) => Err(S::Error::custom(m)),
+            Term::HumanReadable(a, b) => {
+                if s.is_human_readable() {
+                    a.serialize(s)
+                } else {
+                    b.serialize(s)
+                }
+            }
         }
     }
 }
@@ -175,6 +184,7 @@ pub fn term_from_model(j: &J) -> Result<Term, String> {
         "struct" => Term::Struct(st(&j["name"])?, fields()?),
         "struct_variant" => Term::StructVariant(st(&j["name"])?, st(&j["variant"])?, fields()?),
         "fail" => Term::Fail(uncps(&j["msg"])?),
+        "hr" => Term::HumanReadable(Box::new(term_from_model(&j["x"])?), Box::new(term_from_model(&j["y"])?)),
         _ => return Err(format!("unknown term kind {k}")),
     })
 }
